@@ -67,6 +67,7 @@ static pthread_t thr[MAXTH];
 static int thr_started[MAXTH], thr_joined[MAXTH];
 static int schedbuf[1024], nsched, sched_det, sticky = -1, jump;
 static int sigsim, pids[16], npids, chldthr;
+static int memrec, cycles;	/* memrec: 1 region level, 2 word level; cycles of init/use/deinit */
 static int keeptasks;		/* task objects are initialised once and re-registered as they are */
 
 /* ---------------------------------------------------------------- helpers */
@@ -158,8 +159,10 @@ static void *fresh(int k, int id)
 		}
 	}
 	if (o->mem == NULL)
-		o->mem = malloc(ksize[k]);
+		o->mem = __real_malloc(ksize[k]);
 	memset(o->mem, 0xAA, ksize[k]);
+	if (memrec_on)
+		memrec_user_add(o->mem, ksize[k], k, id);
 	return o->mem;
 }
 
@@ -344,6 +347,8 @@ static void do_op(struct op *p)
 
 #define OBJ(K) if (id < 1 || id > MAXO || !O[K][id].declared) { skip(n, id); return; } struct obj *o = &O[K][id]
 	inapi++;
+	if (memrec_on)
+		tr("\"e\":\"AB\",\"op\":\"%s\",\"o\":%d}", n, id);
 	if (!strcmp(n, "fd_reg") || !strcmp(n, "fd_try")) {
 		OBJ(K_FD);
 		if (o->reg || o->osfd < 0) { skip(n, id); goto out; }
@@ -363,6 +368,10 @@ static void do_op(struct op *p)
 		if (r == 0)
 			o->reg = 1;
 		alog(n, id, hid_of(id, p->a[1]), hid_of(id, p->a[2]), hid_of(id, p->a[3]), o->ckidx, r);
+		if (r == 0) {
+			int fl = fcntl(o->osfd, F_GETFL), fdfl = fcntl(o->osfd, F_GETFD);
+			tr("\"e\":\"Flags\",\"o\":%d,\"nb\":%d,\"ce\":%d}", id, (fl & O_NONBLOCK) ? 1 : 0, (fdfl & FD_CLOEXEC) ? 1 : 0);
+		}
 		if (r != 0)
 			quarantine(K_FD, id);
 	} else if (!strcmp(n, "fd_unreg")) {
@@ -608,7 +617,7 @@ static void do_op(struct op *p)
 		OBJ(K_POPEN);
 		if (!o->reg) { skip(n, id); goto out; }
 		iv_popen_request_close(o->mem);
-		if (o->peer >= 0) __real_close(o->peer);
+		if (o->peer >= 0) close(o->peer);	/* wrapped: the descriptor came from the library */
 		o->peer = -1;
 		o->reg = 0;
 		alog(n, id, 0, 0, 0, 0, 0);
@@ -839,6 +848,16 @@ static int env_at_hang(void)
 	return n;
 }
 
+/* the harness's own per-thread state user: observes the tls hook pairing */
+#include <iv_tls.h>
+static void tls_init_hook(void *p) { tr("\"e\":\"Tls\",\"op\":\"init\"}"); }
+static void tls_deinit_hook(void *p) { tr("\"e\":\"Tls\",\"op\":\"deinit\"}"); }
+static struct iv_tls_user harness_tls_user = {
+	.sizeof_state = 16,
+	.init_thread = tls_init_hook,
+	.deinit_thread = tls_deinit_hook,
+};
+
 /* ----------------------------------------------------------------- driver */
 static void fatal_msg(const char *msg)
 {
@@ -898,20 +917,40 @@ static void run_script(void)
 	exclude_for(method);
 	iv_set_fatal_msg_handler(fatal_msg);
 	tr("\"e\":\"Reset\",\"id\":\"%s\",\"m\":\"%s\",\"nf\":%d}", script_id, method, hooks.nfid);
-	iv_init();
-	tr("\"e\":\"Init\",\"m\":\"%s\"}", iv_poll_method_name());
-	run_ops('S', 0, 0, 0, 0, 0);
-	tr("\"e\":\"MainB\"}");
-	in_main = 1;
-	iv_main();
-	in_main = 0;
-	tr("\"e\":\"MainE\"}");
-	run_ops('P', 0, 0, 0, 0, 0);
-	join_threads();
-	check_touch();
-	tr("\"e\":\"Deinit\"}");
-	iv_deinit();
-	check_touch();
+	if (memrec)
+		memrec_init(memrec > 1);
+	iv_tls_user_register(&harness_tls_user);
+	for (int cyc = 0; cyc < (cycles > 0 ? cycles : 1); cyc++) {
+		if (cyc) {
+			/* a further init / use / deinit cycle of the same program */
+			tr("\"e\":\"Cycle\",\"n\":%d}", cyc);
+			for (int k = 0; k < NKIND; k++)
+				for (int i = 0; i <= MAXO; i++) {
+					memset(O[k][i].occ, 0, sizeof O[k][i].occ);
+					if (O[k][i].reg) {
+						O[k][i].reg = 0;
+						quarantine(k, i);
+					}
+				}
+			forced_quit = 0;
+			ncb = 0;
+		}
+		iv_init();
+		tr("\"e\":\"Init\",\"m\":\"%s\"}", iv_poll_method_name());
+		run_ops('S', 0, 0, 0, 0, 0);
+		tr("\"e\":\"MainB\"}");
+		in_main = 1;
+		iv_main();
+		in_main = 0;
+		tr("\"e\":\"MainE\"}");
+		run_ops('P', 0, 0, 0, 0, 0);
+		join_threads();
+		check_touch();
+		tr("\"e\":\"Deinit\"}");
+		iv_deinit();
+		tr("\"e\":\"DeinitE\"}");
+		check_touch();
+	}
 	simk_end("ok", 0);
 }
 
@@ -931,6 +970,8 @@ static void reset_script(void)
 	maxcb = 120;
 	sigsim = 0;
 	keeptasks = 0;
+	memrec = 0;
+	cycles = 0;
 	npids = 0;
 	chldthr = 0;
 	memset(thr_started, 0, sizeof thr_started);
@@ -988,6 +1029,8 @@ int main(int argc, char **argv)
 				else if (!strncmp(tok[i], "jump=", 5)) jump = atoi(tok[i] + 5);
 				else if (!strncmp(tok[i], "sigsim=", 7)) sigsim = atoi(tok[i] + 7);
 				else if (!strncmp(tok[i], "keeptasks=", 10)) keeptasks = atoi(tok[i] + 10);
+				else if (!strncmp(tok[i], "memrec=", 7)) memrec = atoi(tok[i] + 7);
+				else if (!strncmp(tok[i], "cycles=", 7)) cycles = atoi(tok[i] + 7);
 				else if (!strncmp(tok[i], "chldthr=", 8)) chldthr = atoi(tok[i] + 8);
 				else if (!strncmp(tok[i], "pids=", 5)) {
 					npids = 0;
